@@ -1240,19 +1240,18 @@ class VM:
             return UNDEFINED
 
         if isinstance(obj, JSObject):
-            # Check for getter first
-            getter = obj.get_getter(key_str)
-            if getter is not None:
-                return self._invoke_getter(getter, obj)
-            # Check own property
-            if obj.has(key_str):
-                return obj.get(key_str)
-            # Check prototype chain
-            proto = getattr(obj, "_prototype", None)
-            while proto is not None:
-                if isinstance(proto, JSObject) and proto.has(key_str):
-                    return proto.get(key_str)
-                proto = getattr(proto, "_prototype", None)
+            # Walk the chain one object at a time: the nearest property wins, be it
+            # an accessor or a data property; accessors run with the receiver as this
+            current = obj
+            while isinstance(current, JSObject):
+                getter = current._getters.get(key_str)
+                if getter is not None:
+                    return self._invoke_getter(getter, obj)
+                if current.has(key_str):
+                    return current._properties[key_str]
+                if key_str in current._setters:
+                    return UNDEFINED  # accessor without getter
+                current = getattr(current, "_prototype", None)
             # Built-in Object methods as fallback
             if key_str in ("toString", "hasOwnProperty"):
                 return self._make_object_method(obj, key_str)
@@ -2421,12 +2420,18 @@ class VM:
             if key_str == "prototype":
                 obj._prototype = value
         elif isinstance(obj, JSObject):
-            # Check for setter
-            setter = obj.get_setter(key_str)
-            if setter is not None:
-                self._invoke_setter(setter, obj, value)
-            else:
-                obj.set(key_str, value)
+            # The nearest property along the chain decides: a setter is invoked with
+            # the receiver as this, a data property shadows accessors further up
+            current = obj
+            while isinstance(current, JSObject):
+                setter = current._setters.get(key_str)
+                if setter is not None:
+                    self._invoke_setter(setter, obj, value)
+                    return
+                if current.has(key_str) or key_str in current._getters:
+                    break
+                current = current._prototype
+            obj.set(key_str, value)
 
     def _has_property(self, obj: JSObject, key_str: str) -> bool:
         """HasProperty: own data or accessor property (array index, length), or the
